@@ -7,6 +7,7 @@ CONSTANTS
   AsmForms = TRUE
   AsmFirst = TRUE
   Kinds = {"obj"}
+  Family = "all"
   DevsOn = {"ThreadNoTentative", "ThreadMismatchNotDiagnosed", "InlineLateExternal", "NoUsedInternalUndefDiag"}
   OkPrefix = FALSE
   SampleMod = 4
